@@ -363,6 +363,57 @@ def oracle_nre(m, rng):
     e2 = m2.nuclear_repulsion_energy()
     if abs(e2 - e) > 1e-6 * max(1.0, abs(e)):
         return f"nuclear repulsion energy changed under rigid motion + atom reordering: {e!r} -> {e2!r}"
+    return oracle_nre_far(m)
+
+
+FAR_SHIFTS = [(2 ** 7, (1, -2, 3)), (2 ** 10, (-3, 1, 2)), (2 ** 14, (1, 3, -1)), (2 ** 17, (-1, 2, 1)), (2 ** 20, (1, -1, 1))]
+
+
+def oracle_nre_far(m):
+    """pure translations over many decades (1e2 .. 1e6 bohr). The coordinates are first snapped to multiples of 1/256 (8 decimals and
+    dyadic: the constructor's rounding leaves them alone) and the shifts are integers, so every translated coordinate is exact in
+    binary64 and all coordinate differences are the same numbers: the energy, whole and per fragment, must not move (the pairwise
+    sum reproduces it bit for bit; 1e-10 relative is allowed)."""
+    from qcelemental.models import Molecule
+    g = np.asarray(m.geometry, dtype=float).reshape(-1, 3)
+    g0 = np.round(g * 256.0) / 256.0
+    # coincident nuclei after snapping: nothing to compare
+    for i in range(len(g0)):
+        for j in range(i):
+            if float(np.max(np.abs(g0[i] - g0[j]))) == 0.0:
+                return None
+    base = m.dict()
+    base.pop("validated", None)
+    base.pop("connectivity", None)
+
+    def at(geom):
+        d = dict(base)
+        d["geometry"] = geom.ravel().tolist()
+        return quiet(Molecule, **d)
+    try:
+        m0 = at(g0)
+    except Exception as ex:
+        return None if ekind(ex) == "Validation" else f"copy on the 1/256 grid could not be built: {ex!r}"
+    if not np.array_equal(np.asarray(m0.geometry, dtype=float).reshape(-1, 3), g0):
+        return None
+    nf = len(m0.fragments)
+    e0 = [m0.nuclear_repulsion_energy()] + [m0.nuclear_repulsion_energy(k) for k in range(nf)]
+    if not all(math.isfinite(x) for x in e0):
+        return None
+    for scale, mult in FAR_SHIFTS:
+        shift = np.array([float(scale * c) for c in mult])
+        try:
+            mt = at(g0 + shift)
+        except Exception as ex:
+            return None if ekind(ex) == "Validation" else f"translated copy could not be built: {ex!r}"
+        if not np.array_equal(np.asarray(mt.geometry, dtype=float).reshape(-1, 3), g0 + shift):
+            continue
+        et = [mt.nuclear_repulsion_energy()] + [mt.nuclear_repulsion_energy(k) for k in range(nf)]
+        for which, (x0, xt) in enumerate(zip(e0, et)):
+            if not math.isfinite(xt) or abs(xt - x0) > 1e-10 * max(1.0, abs(x0)):
+                name = "nuclear_repulsion_energy()" if which == 0 else f"nuclear_repulsion_energy({which - 1})"
+                return (f"{name} changed under a pure translation by {shift.tolist()} bohr (coordinates exact in binary64): "
+                        f"{x0!r} -> {xt!r} (relative {abs(xt - x0) / max(1.0, abs(x0)):.2e})")
     return None
 
 
@@ -612,6 +663,19 @@ def correspond(ctx):
         for group, orient in [(None, None), (None, False), (True, None), (False, None), (None, True)]:
             run_case(p0, corpus_parent, real, ghost, group, orient, "corpus_call_forms")
     add_molecule_checks(p0, "corpus", {"parent": corpus_parent})
+    # parents whose overall multiplicity is below the high-spin combination of their open-shell fragments
+    for lowspin in ({"symbols": ["Li", "Li"], "geometry": [0, 0, 0, 0, 0, 5], "fragments": [[0], [1]], "fragment_charges": [0.0, 0.0],
+                     "fragment_multiplicities": [2, 2], "molecular_multiplicity": 1},
+                    {"symbols": ["Li", "Na", "N"], "geometry": [0, 0, 0, 0, 0, 5, 0, 5, 0], "fragments": [[0], [1], [2]],
+                     "fragment_charges": [0.0, 1.0, 0.0], "fragment_multiplicities": [2, 1, 4], "molecular_charge": 1.0, "molecular_multiplicity": 3}):
+        pl = build(lowspin)
+        nl = len(pl.fragments)
+        for sel in itertools.permutations(range(nl)):
+            for group in (True, False, None):
+                run_case(pl, lowspin, list(sel), OMIT, group, False, "corpus_low_spin")
+        for sel in itertools.combinations(range(nl), nl - 1):
+            run_case(pl, lowspin, list(sel), [i for i in range(nl) if i not in sel], True, False, "corpus_low_spin")
+        add_molecule_checks(pl, "corpus", {"parent": lowspin})
 
     nb = 0
     attempts = 0
@@ -623,6 +687,17 @@ def correspond(ctx):
         except ValidationError:
             corr.hit("parent_rejected_Validation")
             continue
+        # couple the open-shell fragments to less than high spin (an overall multiplicity the fragments do not add up to)
+        hs = sum(int(x) - 1 for x in parent.fragment_multiplicities) + 1
+        if hs >= 3 and rng.random() < 0.6:
+            low = dict(spec, fragment_charges=[float(x) for x in parent.fragment_charges],
+                       fragment_multiplicities=[int(x) for x in parent.fragment_multiplicities],
+                       molecular_multiplicity=rng.choice(list(range(hs - 2, 0, -2))))
+            try:
+                parent, spec = build(low), low
+                corr.hit("parent_below_high_spin")
+            except ValidationError:
+                corr.hit("parent_below_high_spin_rejected")
         nb += 1
         nfr = len(parent.fragments)
         corr.hit(f"parent_nfr_{nfr}")
@@ -650,6 +725,14 @@ def correspond(ctx):
                 if not real:
                     g2 = ghost
                 run_case(parent, spec, r2, g2, rng.choice([None, None, True, False]), rng.choice([None, None, False, True]), "call_forms")
+        # every fragment kept real, in the parent's order and in another one, both paths (the sub-molecule of everything: its
+        # totals are still formed from the fragments)
+        allr = list(range(nfr))
+        perm = allr[:]
+        rng.shuffle(perm)
+        for sel_all in ([allr] if perm == allr else [allr, perm]):
+            for group in (True, False, None):
+                run_case(parent, spec, sel_all, rng.choice([OMIT, None, []]), group, False, "all_real")
         # irregular selections
         run_case(parent, spec, [0], [0], rng.random() < 0.5, False, "irregular")
         run_case(parent, spec, [nfr + rng.randrange(3)], [], rng.random() < 0.5, False, "irregular")
@@ -899,7 +982,10 @@ LEVEL_TEXT = (
     "Tied to the code on every run by exact differential execution over validated parents with 1-5 fragments (ghost atoms, charged and "
     "open-shell fragments, isotopic masses), unvalidated parents with non-contiguous fragments, ordered pairs of disjoint fragment subsets, "
     "irregular selections, both group_fragments values and orient, every argument form of the public call (bare index incl. 0, list, ghost "
-    "absent / None, options passed or left to their defaults; per-form hit counts), Molecule.get_molecular_formula with and without order / "
+    "absent / None, options passed or left to their defaults; per-form hit counts), parents coupled below high spin (overall multiplicity "
+    "not the high-spin combination of their open-shell fragments) with every fragment kept real in several orders on both paths, pure "
+    "translations of the repulsion energy over 2^7..2^20 bohr on exactly representable coordinates (whole and per fragment, 1e-10 relative), "
+    "Molecule.get_molecular_formula with and without order / "
     "chgmult, the formula functions without `order`, a history check (the parent and all its answers unchanged by extractions; extractions "
     "repeatable; caller's lists untouched); nelectrons / nuclear_repulsion_energy whole and per fragment; every "
     "symbol multiset up to size 4 (quick) / 6 (thorough) over a 12-element alphabet in both orders; and by the conservation oracle "
